@@ -5,11 +5,12 @@
     written as JSON, read back through the row decoder and converted with
     OvsToNative, is the value itself — for atoms, enums, UUIDs, optional
     values, sets of any size (a one-element set travels as its element) and
-    maps with pairwise different keys.  Partial: the composition over all
-    columns of a model (NewRow omitting defaults, GetRowData filling a fresh
-    model) is covered by the correspondence and the driver's oracle, its
-    "untouched" clause by [C09_absent_column_untouched]; integers are
-    unbounded in the model (see the known finding on 2^53). *)
+    maps with pairwise different keys.  [C09_model_roundtrip] composes it over
+    all columns of a model: NewRow (leaving out default values), the JSON
+    trip of the row and GetRowData into a fresh model give back every field;
+    the "untouched" clause is [C09_absent_column_untouched].  Integers are
+    unbounded in the model and the all-zero uuid is excluded (the two known
+    findings). *)
 From LOV Require Import Map.NativeOvs Map.NativeOvsProofs.
 
 Theorem C09_column_value_roundtrip : forall vu f ct v,
@@ -39,3 +40,15 @@ Theorem C09_hypotheses_satisfiable :
   native_has_type ct v = true /\ native_wf v = true.
 Proof. exact roundtrip_example. Qed.
 Print Assumptions C09_hypotheses_satisfiable.
+
+Theorem C09_model_roundtrip : forall vu f T m r r' m',
+  NoDup (map c_name (t_cols T)) -> typed_model (t_cols T) m ->
+  new_row T m = Ok r -> through_json vu (5 + f) r = Ok r' ->
+  get_row_data T r' (fresh_model (t_cols T)) = Ok m' ->
+  forall C v, C ∈ t_cols T -> nm_get m (c_name C) = Some v -> nm_get m' (c_name C) = Some v.
+Proof. exact model_roundtrip. Qed.
+Print Assumptions C09_model_roundtrip.
+
+Theorem C09_new_row_is : forall T m, typed_model (t_cols T) m -> new_row T m = Ok (t_cols T ≫= row_entry m).
+Proof. exact new_row_is. Qed.
+Print Assumptions C09_new_row_is.
